@@ -2087,7 +2087,10 @@ class Measurement:
             return NotImplemented
 
         measurand = self.measurand * other.measurand
-        uncertainty = self._join_uncertainties(measurand, other)
+        uncertainty = self._join_uncertainties(
+            _mul(other.measurand.magnitude, self.uncertainty.magnitude),
+            _mul(self.measurand.magnitude, other.uncertainty.magnitude),
+        )
         return Measurement(measurand, uncertainty)
 
     __rmul__ = __mul__
@@ -2100,27 +2103,19 @@ class Measurement:
             return NotImplemented
 
         measurand = self.measurand / other.measurand
-        uncertainty = self._join_uncertainties(measurand, other)
+        uncertainty = self._join_uncertainties(
+            _div(self.uncertainty.magnitude, other.measurand.magnitude),
+            _div(
+                _mul(measurand.magnitude, other.uncertainty.magnitude),
+                other.measurand.magnitude,
+            ),
+        )
         return Measurement(measurand, uncertainty)
 
-    def _join_uncertainties(self, measurand: Quantity, other: "Measurement") -> float:
-        return math.sqrt(
-            _mul(
-                _pow(measurand.magnitude, 2),
-                (
-                    _add(
-                        _div(
-                            _pow(self.uncertainty.magnitude, 2),
-                            _pow(self.measurand.magnitude, 2),
-                        ),
-                        _div(
-                            _pow(other.uncertainty.magnitude, 2),
-                            _pow(other.measurand.magnitude, 2),
-                        ),
-                    )
-                ),
-            )
-        )
+    def _join_uncertainties(self, first: Numeric, second: Numeric) -> float:
+        # first-order propagation for independent inputs: the partial-derivative
+        # terms (df/dx * sigma_x, df/dy * sigma_y) add in quadrature
+        return math.sqrt(_add(_pow(first, 2), _pow(second, 2)))
 
     def __rtruediv__(self, other: Union["Measurement", Quantity]) -> "Measurement":
         if isinstance(other, Quantity):
